@@ -80,6 +80,7 @@ type Link struct {
 	conds   []string // merge
 	derived map[string]string
 	id      int
+	frame   *frameSpec // loop: frame of the function under contract (cells outside it keep their contents)
 }
 
 type Unit struct {
@@ -104,6 +105,10 @@ type Unit struct {
 	top0    string // $top at entry of the unit's function
 	axHeap  *Heap
 	modelTerms []string
+	globalsUsed map[string]bool
+	ncalls int
+	cardDone map[string]bool
+	scratch *Heap
 }
 
 func NewUnit(w *World, name, prop string) *Unit {
@@ -271,6 +276,22 @@ func (u *Unit) derive(l *Link, name string) string {
 			t = u.fresh(name+"@l", sort)
 			if name == "$top" {
 				u.emit("(assert (>= " + t + " " + p + "))")
+			}
+			if l.frame != nil && !l.frame.all && strings.HasPrefix(sort, "(Array Int") && framePreservable(name) {
+				// Every store and callee effect in the loop body carries a frame obligation of the
+				// function under contract, so an iteration changes a cell allocated before the call
+				// only if the assigns clause names it: all other old cells keep their contents.
+				fs := l.frame
+				guard := "(<= r " + fs.top0 + ")"
+				for _, a := range fs.afters {
+					guard = and(guard, "(< r "+a+")")
+				}
+				for _, fl := range fs.locs {
+					if (fl.Arr == name || fl.Arr == "") && fl.Key != "" {
+						guard = and(guard, "(not (= r "+fl.Key+"))")
+					}
+				}
+				u.emit(fmt.Sprintf("(assert (forall ((r Int)) (! (=> %s (= (select %s r) (select %s r))) :pattern ((select %s r)))))", guard, t, p, t))
 			}
 			if !explicit && strings.HasPrefix(sort, "(Array Int") {
 				// havoced only because of calls with unknown effects: objects allocated by this
@@ -460,4 +481,46 @@ func (u *Unit) addrOf(l *Loc) string {
 	u.D.axiom("(> " + a + " 0)")
 	u.addrs[key] = a
 	return a
+}
+
+// framePreservable: heap arrays indexed by object reference whose cells are written only by
+// stores that carry a frame obligation (struct fields, pointer cells, map rows, ghost fields).
+// Element rows of slices are excluded: an in-place append writes into spare capacity of an old
+// backing array without a frame obligation.
+func framePreservable(name string) bool {
+	for _, p := range []string{"F:", "MD:", "MV:", "P:", "GF:"} {
+		if strings.HasPrefix(name, p) {
+			return true
+		}
+	}
+	return false
+}
+
+// cardOf: the number of keys of a map domain row. card is uninterpreted; what is known about it is
+// stated for each domain term it is applied to: it is non-negative, a domain with a member has at
+// least one key, and a domain with no member has none.
+func (u *Unit) cardOf(domRow string, key types.Type) string {
+	ks := u.D.SortOf(key)
+	card := u.D.Fun("card:"+shortType(key), []string{"(Array " + ks + " Bool)"}, "Int")
+	if u.cardDone == nil {
+		u.cardDone = map[string]bool{}
+	}
+	if !u.cardDone[domRow] {
+		u.cardDone[domRow] = true
+		d := u.fresh("carddom", "(Array "+ks+" Bool)")
+		u.emit("(assert (= " + d + " " + domRow + "))")
+		u.emit(fmt.Sprintf("(assert (>= (%s %s) 0))", card, d))
+		u.emit(fmt.Sprintf("(assert (forall ((k %s)) (! (=> (select %s k) (>= (%s %s) 1)) :pattern ((select %s k)))))", ks, d, card, d, d))
+		u.emit(fmt.Sprintf("(assert (=> (>= (%s %s) 1) (exists ((k %s)) (select %s k))))", card, d, ks, d))
+		return app(card, d)
+	}
+	return app(card, domRow)
+}
+
+// scratchHeap: a heap used only to type-check specification expressions (nothing is asserted about it).
+func (u *Unit) scratchHeap() *Heap {
+	if u.scratch == nil {
+		u.scratch = u.newHeap(&Link{kind: "entry"})
+	}
+	return u.scratch
 }
